@@ -118,8 +118,11 @@ func (e *Exec) resetPath(dec []int64, no int) {
 		e.opaque["hmacfresh"] = true
 	}
 	e.pc = nil
+	e.jsVals = nil
+	e.jsGlobals = nil
 	e.traceClass = ""
 	e.randStreams = nil
+	e.randLens = nil
 	e.pcKind = nil
 	e.decisions = dec
 	e.decPos = 0
@@ -196,7 +199,7 @@ func exploreCase(prog *ssa.Program, hs *HarnessSpec, cases map[string]int64, bas
 	for from, to := range hs.Replace {
 		var stub *ssa.Function
 		for _, p := range prog.AllPackages() {
-			if f := p.Func(to); f != nil && p == hs.Fn.Pkg {
+			if f := p.Func(to); f != nil && (p == hs.Fn.Pkg || stub == nil) {
 				stub = f
 			}
 		}
@@ -212,6 +215,11 @@ func exploreCase(prog *ssa.Program, hs *HarnessSpec, cases map[string]int64, bas
 	for len(stack) > 0 {
 		dec := stack[len(stack)-1]
 		stack = stack[:len(stack)-1]
+		if !deadline.IsZero() && time.Now().After(deadline) {
+			res.Notes = append(res.Notes, fmt.Sprintf("TIME BUDGET exhausted; %d path prefixes unexplored", len(stack)+1))
+			res.Undecided = append(res.Undecided, "time budget exhausted before all paths were explored")
+			break
+		}
 		if no >= maxPaths {
 			res.Notes = append(res.Notes, fmt.Sprintf("PATH LIMIT %d reached; %d prefixes unexplored", maxPaths, len(stack)+1))
 			res.Undecided = append(res.Undecided, "path limit reached")
